@@ -115,8 +115,8 @@ def tree_program(rnd, k):
 def stmt_program(rnd, k):
     g = StmtGen(rnd)
     local = rnd.random() < 0.35      # every variable a local of one function (globals and locals are compiled differently)
-    g.build(n_items=rnd.randint(12, 28), d=2, nest=rnd.randint(1, 3), n_funcs=0 if local else rnd.randint(0, 3))
-    if local and wrap_in_function(g.prog):
+    g.build(n_items=rnd.randint(12, 28), d=2, nest=rnd.randint(1, 3), n_funcs=rnd.randint(0, 2) if local else rnd.randint(0, 3), pure_funcs=local)
+    if local and wrap_in_function(g.prog, allow_funcs=True):
         g.cells.add(("holders", "local"))
     return g
 
